@@ -107,39 +107,46 @@ func loopBookkeeping(bo *ssa.BinOp) bool {
 	return false
 }
 
-// controllingAtoms: the atoms of every branch the block is (transitively) control dependent on.
+// controllingAtoms: the atoms of every branch the block is (transitively) control dependent on, in the standard
+// sense: b is control dependent on the branch at g when one successor of g is bound to reach b (b post-dominates it)
+// and the other is not.
 func controllingAtoms(fn *ssa.Function, b *ssa.BasicBlock) (map[string]bool, bool) {
 	out := map[string]bool{}
 	ok := true
-	// b is control dependent on branch block g iff g has a successor from which b is always reached
-	// (b post-dominates it) and another from which it need not be. Without a post-dominator tree: g is a
-	// controlling branch when b is reachable from one successor only after removing... approximated by the
-	// dominator form that matches structured code: every If block g that dominates b and has a successor s with
-	// s == b or s dominating b, while the other successor does not lead to b unconditionally.
-	for g := b.Idom(); g != nil; g = g.Idom() {
-		iff, isIf := g.Instrs[len(g.Instrs)-1].(*ssa.If)
-		if !isIf {
-			continue
+	seen := map[*ssa.BasicBlock]bool{}
+	var visit func(x *ssa.BasicBlock)
+	visit = func(x *ssa.BasicBlock) {
+		if seen[x] {
+			return
 		}
-		s0 := g.Succs[0] == b || g.Succs[0].Dominates(b)
-		s1 := g.Succs[1] == b || g.Succs[1].Dominates(b)
-		if s0 == s1 {
-			// reached through a join below g: b may still depend on g when one arm leaves the function
-			if !(armLeaves(g.Succs[0], b) != armLeaves(g.Succs[1], b)) {
+		seen[x] = true
+		for _, g := range fn.Blocks {
+			iff, isIf := g.Instrs[len(g.Instrs)-1].(*ssa.If)
+			if !isIf || len(g.Succs) != 2 {
 				continue
 			}
-		}
-		if !condAtoms(iff.Cond, out) {
-			ok = false
+			p0, p1 := boundToReach(g.Succs[0], x), boundToReach(g.Succs[1], x)
+			if p0 == p1 {
+				continue
+			}
+			if !condAtoms(iff.Cond, out) {
+				ok = false
+			}
+			visit(g)
 		}
 	}
+	visit(b)
 	return out, ok
 }
 
-// armLeaves: from s every path ends (return/panic) without reaching b.
-func armLeaves(s, b *ssa.BasicBlock) bool {
+// boundToReach: every path from s that reaches a return passes through b (b post-dominates s), and b is reachable.
+func boundToReach(s, b *ssa.BasicBlock) bool {
+	if s == b {
+		return true
+	}
 	seen := map[*ssa.BasicBlock]bool{}
 	work := []*ssa.BasicBlock{s}
+	reachesB := false
 	for len(work) > 0 {
 		x := work[len(work)-1]
 		work = work[:len(work)-1]
@@ -148,11 +155,15 @@ func armLeaves(s, b *ssa.BasicBlock) bool {
 		}
 		seen[x] = true
 		if x == b {
-			return false
+			reachesB = true
+			continue
+		}
+		if _, isRet := x.Instrs[len(x.Instrs)-1].(*ssa.Return); isRet {
+			return false // an exit reached without passing b
 		}
 		work = append(work, x.Succs...)
 	}
-	return true
+	return reachesB
 }
 
 func (c *Ctx) rgSigs(pkgs []string) []rgSig {
